@@ -8,6 +8,7 @@
 //!                                        ["Walk",n],["WalkErr",k]], "kinds":[..]?}
 //! intervals: 0 = None. "Walk" n = walk() over n further steps (trace kinds) / to the end of the
 //! path (slts, timed); "WalkErr" k = walk() whose k-th step fails (trace kinds only).
+//! comp: "conv" / "bel" = toy-builder units at realistic scale, "hyb" = altrios' default hybrid.
 //! kinds: "loco" LocomotiveSimulation (first unit), "consist" ConsistSimulation,
 //! "setspeed" SetSpeedTrainSim, "slts" SpeedLimitTrainSim (walk / step),
 //! "timed" SpeedLimitTrainSim::walk_timed_path.
@@ -22,6 +23,7 @@
 use altrios_core::consist::locomotive::loco_sim::{LocomotiveSimulation, PowerTrace};
 use altrios_core::consist::consist_sim::ConsistSimulation;
 use altrios_core::prelude::*;
+use altrios_core::traits::SerdeAPI;
 use altrios_core::train::LinkIdxTime;
 use altrios_core::uc;
 use avh::build;
@@ -38,6 +40,19 @@ fn unit(kind: &str) -> Value {
     } else {
         json!({"kind":"conv","rfc":4.0e6,"rgen":4.0e6,"redrv":4.0e6,"idle":4096.0,"lag":16.0,
                "fc_init":1.0e6,"mass":131072.0,"force_max":4.0e5,"aux":4096.0})
+    }
+}
+
+/// conventional / battery-electric toy-builder units at realistic scale, or altrios' own default
+/// hybrid (fuel converter + generator + battery + drivetrain from the shipped default YAMLs)
+fn make_unit(kind: &str) -> anyhow::Result<Locomotive> {
+    if kind == "hyb" {
+        let mut l = Locomotive::default_hybrid_electric_loco();
+        l.set_save_interval(None);
+        l.init()?;
+        Ok(l)
+    } else {
+        build::loco(&unit(kind))
     }
 }
 
@@ -90,15 +105,17 @@ fn speed_trace(n: usize) -> SpeedTrace {
 
 impl Sim {
     fn new(kind: &str, comp: &[Value], v0: Option<usize>) -> anyhow::Result<Sim> {
-        let units: Vec<Value> = comp.iter().map(|c| unit(c.as_str().unwrap_or("conv"))).collect();
+        let units = || -> anyhow::Result<Vec<Locomotive>> {
+            comp.iter().map(|c| make_unit(c.as_str().unwrap_or("conv"))).collect()
+        };
         Ok(match kind {
             "loco" => Sim::Loco(Box::new(LocomotiveSimulation::new(
-                build::loco(&units[0])?,
+                units()?.remove(0),
                 power_trace(STEPS_MAX),
                 v0,
             ))),
             "consist" => Sim::Con(Box::new(ConsistSimulation::new(
-                build::consist(&units, "Proportional", None)?,
+                build::consist_of(units()?, "Proportional", None)?,
                 power_trace(STEPS_MAX),
                 v0,
             ))),
@@ -107,7 +124,7 @@ impl Sim {
                 let tsb = TrainSimBuilder::new(
                     "t".into(),
                     train_cfg()?,
-                    build::consist(&units, "Proportional", None)?,
+                    build::consist_of(units()?, "Proportional", None)?,
                     None,
                     None,
                     None,
@@ -125,7 +142,7 @@ impl Sim {
                 let tsb = TrainSimBuilder::new(
                     "t".into(),
                     train_cfg()?,
-                    build::consist(&units, "Proportional", None)?,
+                    build::consist_of(units()?, "Proportional", None)?,
                     Some("A".into()),
                     Some("B".into()),
                     None,
@@ -474,7 +491,7 @@ fn gen(seed: u64, n: usize, _tier: &str) -> Vec<Value> {
     for k in 0..n {
         let mut r = Rng::new(seed.wrapping_mul(1_000_003).wrapping_add(k as u64));
         let nl = r.range(1, 3);
-        let comp: Vec<&str> = (0..nl).map(|_| *r.pick(&["conv", "bel"])).collect();
+        let comp: Vec<&str> = (0..nl).map(|_| *r.pick(&["conv", "bel", "hyb"])).collect();
         let ivs = [0i64, 1, 1, 2, 3, 4, 5, 7, 10];
         let mut sched = vec![json!(["New", *r.pick(&ivs)])];
         for _ in 0..r.range(0, 2) {
